@@ -30,7 +30,10 @@ RULE = (
     "bz2, zip, xz by suffix or by fmt=, or a name without compression suffix), "
     "a content (empty, 1 byte, literal bytes, 0-256 KiB of incompressible / "
     "highly compressible / already compressed bytes expanded from a key), how "
-    "the temp dir is given (tmpdir= or tempfile.tempdir), an optional "
+    "the temp dir is given (tmpdir= or tempfile.tempdir; in a quarter of the "
+    "cases the temp dirs and the explicit decompress target lie on another "
+    "filesystem than the target, if one is writable), names that coincide "
+    "with typhon's own scratch names ('temp'), an optional "
     "pre-existing compress target (arbitrary bytes or a longer genuine older "
     "archive), an optional explicit decompress target that may already exist "
     "with other content (empty / shorter / longer), and independently one fault for the compress block "
@@ -252,6 +255,10 @@ def check_case(case, ctx):
         ctx.label("unicode")
     if " " in name:
         ctx.label("space")
+    if case["name"]["core"] in SCRATCH_NAMES:
+        ctx.label("scratch-name")
+        if name == "temp":
+            ctx.label("scratch-name-exact")
     ctx.label({0: "empty", 1: "one-byte"}.get(len(content)))
     if len(content) > 64 * 1024:
         ctx.label("large")
@@ -262,11 +269,22 @@ def check_case(case, ctx):
 
     root = tempfile.mkdtemp(prefix="vp-c12-")
     saved_tempdir = tempfile.tempdir
+    root2 = None
     try:
-        T = os.path.join(root, "tmp-arg")       # passed as tmpdir=
-        D = os.path.join(root, "tmp-default")   # installed as tempfile.tempdir
+        side = root
+        if case.get("xdev"):
+            # temp dirs and the explicit decompress target on another
+            # filesystem than the target directory (no rename possible)
+            other = other_filesystem(root)
+            if other is None:
+                ctx.label("xdev-unavailable")
+            else:
+                root2 = side = tempfile.mkdtemp(prefix="vp-c12-", dir=other)
+                ctx.label("xdev")
+        T = os.path.join(side, "tmp-arg")       # passed as tmpdir=
+        D = os.path.join(side, "tmp-default")   # installed as tempfile.tempdir
         W = os.path.join(root, "work")          # where the target lives
-        X = os.path.join(root, "xtarget")       # explicit decompress target
+        X = os.path.join(side, "xtarget")       # explicit decompress target
         for d in (T, D, W, X):
             os.mkdir(d)
         tempfile.tempdir = D
@@ -278,6 +296,21 @@ def check_case(case, ctx):
     finally:
         tempfile.tempdir = saved_tempdir
         shutil.rmtree(root, ignore_errors=True)
+        if root2 is not None:
+            shutil.rmtree(root2, ignore_errors=True)
+
+
+def other_filesystem(reference):
+    """a writable directory on another device than `reference`, or None"""
+    dev = os.stat(reference).st_dev
+    for cand in ("/dev/shm", "/run/shm", "/var/tmp"):
+        try:
+            if os.path.isdir(cand) and os.access(cand, os.W_OK | os.X_OK) \
+                    and os.stat(cand).st_dev != dev:
+                return cand
+        except OSError:
+            pass
+    return None
 
 
 def no_debris(ctx, world, phase, extra=""):
@@ -604,6 +637,7 @@ INNER = [".tar", ".nc", ".v1", ".2018", ".gz", ".zip", ".bz2", ".xz", ".",
          ".h5", ". x"]
 PLAIN_SUFFIX = ["", ".dat", ".nc", ".GZ", ".gzip", ".tgz", ".z", ".xz2",
                 ".bz", ".7z", ".Zip", ".txt", ".lzma"]
+SCRATCH_NAMES = ["temp", "temp", "temp", "tmp", "unpacked.bin"]
 SPECIAL_PLAIN = ["gz", "zip", "xz", "bz2", ".gz", ".xz", ".zip", ".bz2"]
 
 
@@ -612,13 +646,22 @@ def names(draw, fmt, via):
     if fmt is None and draw(st.integers(0, 7)) == 0:
         return {"prefix": "", "core": draw(st.sampled_from(SPECIAL_PLAIN)),
                 "inner": [], "suffix": ""}
-    prefix = draw(st.sampled_from(["", "", "", "."]))
-    core = draw(st.sampled_from(ALNUM)) + draw(st.text(EXTRA, max_size=6))
-    inner = draw(st.lists(st.sampled_from(INNER), max_size=3))
+    scratch = draw(st.integers(0, 11 if via != "fmt-arg-plain" else 4)) == 0
+    if scratch:
+        # the names typhon itself uses inside its temporary directory
+        # (compress: "<tdir>/temp"), bare and with suffixes
+        prefix = ""
+        core = draw(st.sampled_from(SCRATCH_NAMES))
+        inner = draw(st.sampled_from([[], [], [".nc"]]))
+    else:
+        prefix = draw(st.sampled_from(["", "", "", "."]))
+        core = draw(st.sampled_from(ALNUM)) + draw(st.text(EXTRA, max_size=6))
+        inner = draw(st.lists(st.sampled_from(INNER), max_size=3))
     if via == "fmt-arg-other":
         suffix = "." + draw(st.sampled_from([f for f in FORMATS if f != fmt]))
     elif fmt is None or via == "fmt-arg-plain":
-        suffix = draw(st.sampled_from(PLAIN_SUFFIX))
+        suffix = draw(st.sampled_from(
+            ["", ""] + PLAIN_SUFFIX if scratch else PLAIN_SUFFIX))
         if suffix == "" and inner and inner[-1].lstrip(".") in FORMATS:
             suffix = ".dat"
     else:
@@ -715,6 +758,7 @@ def cases(draw):
         "name": draw(names(fmt, via)),
         "content": draw(contents()),
         "chunks": draw(st.integers(1, 4)),
+        "xdev": draw(st.sampled_from([False, False, False, True])),
         "tmp": draw(st.sampled_from(["arg", "default"])),
         "dtmp": draw(st.sampled_from(["arg", "default"])),
         "dtarget": draw(st.sampled_from([False, False, False, True, True])),
